@@ -60,7 +60,8 @@ func mcPlan() []*mcRun {
 		{module: "CmapMutex", cfg: ev.Pick("MC_cmap_small.cfg", "MC_cmap_big.cfg")},
 		{module: "CmapMutex", cfg: "MC_cmap_defect.cfg", expect: "-after-deleteunlock"},
 		{module: "CmapMutex", cfg: "MC_cmap_defect_delr.cfg", expect: "-after-deleterunlock"},
-		{module: "CmapMutex", cfg: ev.Pick("MC_cmap_repair_small.cfg", "MC_cmap_repair.cfg")},
+		{module: "CmapMutex", cfg: ev.Pick("MC_cmap_repair_small.cfg", "MC_cmap_repair.cfg")},           // candidate repair: revalidate after acquiring
+		{module: "CmapMutex", cfg: ev.Pick("MC_cmap_repair_full_small.cfg", "MC_cmap_repair_full.cfg")}, // ... plus DeleteRUnlock deleting only an unused mutex
 		{module: "CtxLock", cfg: ev.Pick("MC_ctxlock_small.cfg", "MC_ctxlock_big.cfg")},
 		{module: "CtxLock", cfg: "MC_ctxlock_small_rw.cfg"},
 		{module: "CtxLock", cfg: "MC_ctxlock_defect.cfg", expect: "unobtainable-though-nobody-holds-it-after-a-failed-acquisition"},
@@ -161,7 +162,7 @@ func genScenarios(rng *rand.Rand) []scenario {
 	nsched := ev.Pick(2, 4)
 
 	// fifo.Mutex: lockers started one at a time, each observed blocked before the next
-	for i := 0; i < nprog(40, 600); i++ {
+	for i := 0; i < nprog(40, 300); i++ {
 		nc := 2 + rng.Intn(maxG-1)
 		var cl [][]section
 		for c := 0; c < nc; c++ {
@@ -170,7 +171,7 @@ func genScenarios(rng *rand.Rand) []scenario {
 		add(scenario{Prim: "fifomutex", Class: "random", Clients: cl}, nsched)
 	}
 	// fifo.Map
-	for i := 0; i < nprog(150, 3000); i++ {
+	for i := 0; i < nprog(150, 1500); i++ {
 		nc := 2 + rng.Intn(maxG-1)
 		nk := 1 + rng.Intn(3)
 		var cl [][]section
@@ -214,10 +215,10 @@ func genScenarios(rng *rand.Rand) []scenario {
 		}
 		return cl
 	}
-	for i := 0; i < nprog(150, 3000); i++ {
+	for i := 0; i < nprog(150, 1500); i++ {
 		add(scenario{Prim: "cmap", Class: "random", Clients: genCmap(false)}, nsched)
 	}
-	for i := 0; i < nprog(60, 1200); i++ {
+	for i := 0; i < nprog(60, 600); i++ {
 		add(scenario{Prim: "cmap", Class: "random-delete", Clients: genCmap(true)}, nsched)
 	}
 	for i := 0; i < nprog(20, 200); i++ {
@@ -244,7 +245,7 @@ func genScenarios(rng *rand.Rand) []scenario {
 		Prefix: []string{"start:g1", "go:g1:cmap.rlock.lookedUp", "go:g1:cmap.rlock.created", "start:g2", "go:g2:cmap.rlock.lookedUp", "go:g1:cs.hold", "start:g3", "go:g3:cmap.lock.lookedUp", "go:g2:cs.hold"}}, 1)
 	// lock.Context
 	cancels := []string{"", "", "pre", "wait", "wait", "hand-a", "hand-b"}
-	for i := 0; i < nprog(150, 3000); i++ {
+	for i := 0; i < nprog(150, 1500); i++ {
 		nc := 2 + rng.Intn(maxG-1)
 		var cl [][]section
 		for c := 0; c < nc; c++ {
@@ -321,7 +322,7 @@ func outerScenarios(rng *rand.Rand) []scenario {
 	S("staged:shutdown-while-writer-waits", R("grace", 0), A(5), W(5), A(G/2), SD, A(3*G))
 	S("staged:shutdown-while-writer-holds", W(2*G), A(5), R("hold", 1), SD, A(1), W(5), A(3*G))
 	durs := []int{0, 1, 5, G / 2, G - 1, G, G + 1, 2 * G}
-	for i := 0; i < ev.Pick(300, 6000); i++ {
+	for i := 0; i < ev.Pick(300, 4000); i++ {
 		var st []ostep
 		n := 3 + rng.Intn(6)
 		acq := 0
@@ -546,7 +547,7 @@ var whyText = map[string]string{
 	"fifo-granted-out-of-arrival-order":   "a FIFO lock was granted to a goroutine while another one that was seen blocked earlier still waits",
 	"fifomap-entry-left-behind":           "the fifo map keeps a per-key entry although nobody holds or waits for that key",
 	"fifomap-entry-missing-while-in-use":  "the fifo map has no entry for a key somebody still holds or waits for",
-	"waiter-whose-context-ended-keeps-waiting": "a waiter whose context ended never returns",
+	"waiter-whose-context-ended-keeps-waiting": "a waiter whose context ended keeps waiting (it is still blocked when nothing else can move, or at the end of the run)",
 	"unobtainable-though-nobody-holds-it": "a caller waits forever although nobody holds the lock",
 	"unobtainable-though-nobody-holds-it-after-a-failed-acquisition": "after an acquisition that reported an error, nobody holds the lock and yet it cannot be obtained any more (the failed acquisition kept something)",
 	"release-never-returns":               "a release call never returns",
